@@ -114,6 +114,8 @@ def _graph_sum(run, batch):
         v1.id, v2.id = 10 * n + 1, 10 * n + 2
         e.vertex_ids = [v1.id, v2.id]
         e.vertices = None
+        if hasattr(e, 'offset'):
+            e.offset_id = 0              # (ids are labels: several landmark edges may carry the same id with different offsets)
         edges.append(e)
         verts += [v2, v1]
         # fixed flags must not influence chi^2 (they only matter to the optimizer): fix both / one / no endpoint
